@@ -189,6 +189,22 @@ def run(ctx):
                     ("mixed" if any(u[2] is None for us in cs["ann"].values() for u in us) else "all"))
         ctx.observe("empty_annotators", sum(1 for us in cs["ann"].values() if not us))
         check_case(ctx, case)
+    # candidate tables filled to the brim: two annotators whose units are all mutually alignable, (p + 1) * q = the
+    # kernel's table size (10 000 rows, then + 50 % per growth step), followed / preceded by isolated units whose only
+    # candidate is their singleton - whichever candidate sits on a growth boundary is then indispensable
+    for _ in range(ctx.scale(1, 4)):
+        p_, q_ = ctx.rng.choice([(79, 125), (99, 100), (49, 200), (124, 80), (149, 100), (99, 150)])
+        step = 0.01
+        ann = {"a": [[round(i * step, 4), round(10 + i * step, 4), None] for i in range(p_)],
+               "b": [[round(0.005 + j * step, 4), round(10.005 + j * step, 4), None] for j in range(q_)]}
+        for k in range(ctx.rng.randint(1, 3)):
+            ann["b"].append([1000.0 + 20 * k, 1010.0 + 20 * k, None])
+        for k in range(ctx.rng.randint(0, 2)):
+            ann["a"].append([-1000.0 - 20 * k, -990.0 - 20 * k, None])
+        case = {"continuum": {"ann": ann, "family": "table-brim"}, "dissim": {"kind": "positional", "delta": 1.0}, "backend": "cbc"}
+        ctx.begin_case(case)
+        ctx.observe("family", "candidate-table-filled-to-the-brim")
+        check_case(ctx, case)
     # very large candidate sets (> 100 000 tuples under the cut): dense overlapping units, 5 annotators x 10-11 units
     # (after the random cases, whatever is left of the time budget: one such case costs 10 - 60 s depending on the machine)
     for _ in range(ctx.scale(1, 6)):
